@@ -245,6 +245,9 @@ func (n *Node) CloseConns() {
 	n.conns = nil
 }
 
+// ShareStore makes the node use m's keyspace (replicas see their master's data without lag).
+func (n *Node) ShareStore(m *Node) { n.store = m.store }
+
 // Store exposes the node's keyspace.
 func (n *Node) Store() *Store { return n.store }
 
